@@ -22,7 +22,7 @@
 //	                               `or` only at top level)
 //	g.<Switch> = false             every production has a boolean switch in Grammar; see the struct
 //	g.Exclude... = true            leave a structural class out by construction (known findings): ExcludeOnBothLack,
-//	                               ExcludeIgnoringGuaranteed, ExcludeFnOverRemoved, ExcludeCountValuesWithout;
+//	                               ExcludeIgnoringGuaranteed, ExcludeFnOverRemoved, ExcludeCountValuesWithout, ExcludeIncludeAbsent;
 //	                               g.Excluded / g.ExcludedBy count what was dropped
 //	g.Vector(t)  string            an instant-vector expression
 //	g.Scalar(t)  string            a scalar expression
@@ -42,6 +42,8 @@
 //	pq.LCA(root, a, b)             lowest common ancestor of two nodes (by pointer identity)
 //	pq.WithDeadMatcher(expr, sel)  expr with an unsatisfiable matcher added to one selector
 //	pq.MayCarry(node, label)       conservative structural "can a result of node carry this label" (independent of pint)
+//	pq.HasTieBreak(node)           holds topk/bottomk (result not reproducible when values tie)
+//	pq.IncludeDeletes(node, label) holds a group_left/right(label) whose "one" side cannot carry the label
 //	pq.PositivelyNamed(node)       labels named in = / =~ matchers, label_replace/label_join destinations, count_values labels
 //
 // Database (db.go)
@@ -137,6 +139,8 @@ type Grammar struct {
 	// ExcludeFnOverRemoved: never wrap a function around an operand that names a label L in an = / =~ matcher
 	// but structurally cannot carry L any more (e.g. abs(sum without(b)(foo{b="1"}))).
 	ExcludeFnOverRemoved bool
+	// ExcludeIncludeAbsent: never list in group_left(...)/group_right(...) a label the "one" side cannot carry.
+	ExcludeIncludeAbsent bool
 	// ExcludeCountValuesWithout: never emit count_values without(.., L, ..)("L", ...).
 	ExcludeCountValuesWithout bool
 	// Excluded counts how many labels were dropped from a modifier list because of an exclusion
